@@ -1,59 +1,18 @@
-(* C13 - swap2 between any two vector flavours (vectorcommon.hpp: VectorImpl::swap2 = adjustEachOtherCapacity + swap2_impl,
-   canSwapDynStorage / swapDynStorage of the three bases, swap_sizetype), as a function on the size words of two vectors with
-   DIFFERENT configurations (flavour, inline capacity, size_type, allocator type), over the base interface of VecModel.v.
-   Element sequences are exchanged by the step (swap_deep or buffer exchange); what is modelled and proved here is the part
-   where the historic defects lived: which path is taken, when it throws, and what the words are afterwards. *)
+(* C13 - proofs about the cross-configuration swap2 model (Swap2Model.v). *)
 From Coq Require Import ZArith List Bool Lia.
 Require Import ZifyBool.
 From Amc Require Import GenPrelude Words VecModel VecProofs.
+From Amc Require Export Swap2Model.
 Import ListNotations.
 Local Open Scope Z_scope.
 
-Definition akind_eqb (a b : akind) : bool :=
-  match a, b with ANone, ANone | AAmc, AAmc | ALed, ALed | ALedR, ALedR => true | _, _ => false end.
-
 Section X.
 Variables c1 c2 : vcfg.
-
-Definition can_swap_dyn_x (t o : words) : bool :=
-  akind_eqb (calloc c1) (calloc c2) &&
-  match fl c1, fl c2 with
-  | FFCV, _ | _, FFCV => false
-  | FVec, FVec => true
-  | FVec, FSV => negb (isSmall o)
-  | FSV, FVec => negb (isSmall t)
-  | FSV, FSV => negb (isSmall t) && negb (isSmall o)
-  end.
-(* swap_sizetype(lhs, rhs): overflow_error when a value does not fit the other size_type (compared by the maxima) *)
-Definition st_throws (l r : Z) : bool :=
-  ((cM c1 <? cM c2) && (cM c1 <? r)) || ((cM c2 <? cM c1) && (cM c2 <? l)).
-
-Definition exchange_buffers (t o : words) : (words * words) + exn :=
-  if st_throws (capa_ t) (capa_ o) then inr OverflowError
-  else if st_throws (size_ t) (size_ o) then inr OverflowError   (* cannot happen once the capacities fit: see below *)
-  else inl ({| capa_ := capa_ o; size_ := size_ o |}, {| capa_ := capa_ t; size_ := size_ t |}).
-
-Definition swap2x (t o : words) : (words * words * list aevent * list aevent) + (exn * words * words * list aevent * list aevent) :=
-  let adjusted :=
-    if can_swap_dyn_x t o then inl (t, o, [], [])
-    else match adjust c1 t (b_size c2 o) with
-         | inr e => inr (e, t, o, [], [])
-         | inl (t1, ev1) =>
-             match adjust c2 o (b_size c1 t1) with
-             | inr e => inr (e, t1, o, ev1, [])          (* the first operand has possibly grown already *)
-             | inl (o1, ev2) => inl (t1, o1, ev1, ev2)
-             end
-         end in
-  match adjusted with
-  | inr r => inr r
-  | inl (t1, o1, ev1, ev2) =>
-      if can_swap_dyn_x t1 o1 then
-        match exchange_buffers t1 o1 with
-        | inr e => inr (e, t1, o1, ev1, ev2)
-        | inl (t', o') => inl (t', o', ev1, ev2)
-        end
-      else inl (b_setSize c1 t1 (b_size c2 o1), b_setSize c2 o1 (b_size c1 t1), ev1, ev2)
-  end.
+Local Notation can_swap_dyn_x := (can_swap_dyn_x c1 c2).
+Local Notation can_exchange_x := (can_exchange_x c1 c2).
+Local Notation st_throws := (st_throws c1 c2).
+Local Notation exchange_buffers := (exchange_buffers c1 c2).
+Local Notation swap2x := (swap2x c1 c2).
 
 Hypothesis H1 : cfg_ok c1.
 Hypothesis H2 : cfg_ok c2.
@@ -98,35 +57,51 @@ Proof. intros Ht Ho Hcan. unfold can_swap_dyn_x in Hcan. apply andb_true_iff in 
     repeat split; try assumption; lia.
 Qed.
 
+(* once canExchangeDynStorage holds the two swap_sizetype calls cannot throw *)
+Lemma exchange_never_throws t o : BInv c1 t -> BInv c2 o -> can_exchange_x t o = true ->
+  exists t' o', exchange_buffers t o = inl (t', o') /\ BInv c1 t' /\ BInv c2 o' /\ b_size c1 t' = b_size c2 o /\ b_size c2 o' = b_size c1 t.
+Proof. intros Ht Ho Hcan. unfold can_exchange_x in Hcan. apply andb_true_iff in Hcan. destruct Hcan as [Hcan Hb]. apply andb_true_iff in Hcan. destruct Hcan as [Hcan Ha].
+  pose proof (exchange_ok t o Ht Ho Hcan) as X.
+  assert (Hheap : b_capacity c1 t = capa_ t /\ b_capacity c2 o = capa_ o).
+  { unfold can_swap_dyn_x in Hcan. apply andb_true_iff in Hcan. destruct Hcan as [_ Hcan]. unfold b_capacity.
+    destruct (fl c1) eqn:E1, (fl c2) eqn:E2; try discriminate Hcan; unfold p_capacity, Words.capacity; split; try reflexivity.
+    - apply negb_true_iff in Hcan. rewrite Hcan. reflexivity.
+    - apply negb_true_iff in Hcan. rewrite Hcan. reflexivity.
+    - apply andb_true_iff in Hcan. destruct Hcan as [A _]. apply negb_true_iff in A. rewrite A. reflexivity.
+    - apply andb_true_iff in Hcan. destruct Hcan as [_ A]. apply negb_true_iff in A. rewrite A. reflexivity. }
+  destruct Hheap as [E1 E2]. rewrite E1 in Ha. rewrite E2 in Hb.
+  destruct (exchange_buffers t o) as [[t' o']|e].
+  - exists t', o'. split; [reflexivity|]. exact X.
+  - destruct X as [_ X]. lia.
+Qed.
+
 (* C13: swap2 either exchanges the sizes leaving both vectors well formed, or throws the limit exception of the side that
-   cannot hold the other's elements; the element sequences are exchanged / left alone accordingly by the step *)
+   cannot hold the other's elements - and only then; the element sequences are exchanged / left alone accordingly by the step *)
 Theorem swap2x_ok t o : BInv c1 t -> BInv c2 o ->
   match swap2x t o with
   | inl (t', o', _, _) => BInv c1 t' /\ BInv c2 o' /\ b_size c1 t' = b_size c2 o /\ b_size c2 o' = b_size c1 t
   | inr (e, t', o', _, _) =>
       BInv c1 t' /\ BInv c2 o' /\ b_size c1 t' = b_size c1 t /\ b_size c2 o' = b_size c2 o /\
-      (e = lim_exn c1 \/ e = lim_exn c2 \/ e = OverflowError)
+      ((e = lim_exn c1 /\ b_limit c1 < b_size c2 o) \/ (e = lim_exn c2 /\ b_limit c2 < b_size c1 t))
   end.
 Proof. intros Ht Ho. unfold swap2x.
   pose proof (b_size_cap c1 H1 t Ht) as Hst. pose proof (b_size_cap c2 H2 o Ho) as Hso.
   assert (Hfin : forall t1 o1 ev1 ev2, BInv c1 t1 -> BInv c2 o1 -> b_size c1 t1 = b_size c1 t -> b_size c2 o1 = b_size c2 o ->
-            (can_swap_dyn_x t1 o1 = false -> b_size c2 o <= b_capacity c1 t1 /\ b_size c1 t <= b_capacity c2 o1) ->
-            match (if can_swap_dyn_x t1 o1
+            (can_exchange_x t1 o1 = false -> b_size c2 o <= b_capacity c1 t1 /\ b_size c1 t <= b_capacity c2 o1) ->
+            match (if can_exchange_x t1 o1
                    then match exchange_buffers t1 o1 with inr e => inr (e, t1, o1, ev1, ev2) | inl (t', o') => inl (t', o', ev1, ev2) end
                    else inl (b_setSize c1 t1 (b_size c2 o1), b_setSize c2 o1 (b_size c1 t1), ev1, ev2))
                   : (words * words * list aevent * list aevent) + (exn * words * words * list aevent * list aevent) with
             | inl (t', o', _, _) => BInv c1 t' /\ BInv c2 o' /\ b_size c1 t' = b_size c2 o /\ b_size c2 o' = b_size c1 t
             | inr (e, t', o', _, _) => BInv c1 t' /\ BInv c2 o' /\ b_size c1 t' = b_size c1 t /\ b_size c2 o' = b_size c2 o /\
-                                       (e = lim_exn c1 \/ e = lim_exn c2 \/ e = OverflowError) end).
-  { intros t1 o1 ev1 ev2 A1 A2 S1 S2 C. destruct (can_swap_dyn_x t1 o1) eqn:Ec.
-    - pose proof (exchange_ok t1 o1 A1 A2 Ec) as X. destruct (exchange_buffers t1 o1) as [[t' o']|e].
-      + destruct X as (X1 & X2 & X3 & X4). repeat split; try assumption; lia.
-      + destruct X as [-> _]. repeat split; try assumption. right; right; reflexivity.
+                                       ((e = lim_exn c1 /\ b_limit c1 < b_size c2 o) \/ (e = lim_exn c2 /\ b_limit c2 < b_size c1 t)) end).
+  { intros t1 o1 ev1 ev2 A1 A2 S1 S2 C. destruct (can_exchange_x t1 o1) eqn:Ec.
+    - destruct (exchange_never_throws t1 o1 A1 A2 Ec) as (t' & o' & -> & X1 & X2 & X3 & X4). repeat split; try assumption; lia.
     - destruct (C eq_refl) as [C1 C2].
       destruct (b_setSize_ok c1 H1 t1 (b_size c2 o1) A1 ltac:(lia)) as (X1 & X2 & _).
       destruct (b_setSize_ok c2 H2 o1 (b_size c1 t1) A2 ltac:(lia)) as (Y1 & Y2 & _).
       repeat split; try assumption; lia. }
-  destruct (can_swap_dyn_x t o) eqn:Ec.
+  destruct (can_exchange_x t o) eqn:Ec.
   - apply Hfin; try assumption; try reflexivity. intros X. congruence.
   - pose proof (adjust_ok c1 H1 t (b_size c2 o) Ht ltac:(lia)) as HA.
     destruct (adjust c1 t (b_size c2 o)) as [[t1 ev1]|e].
@@ -134,7 +109,28 @@ Proof. intros Ht Ho. unfold swap2x.
       pose proof (adjust_ok c2 H2 o (b_size c1 t1) Ho ltac:(lia)) as HB.
       destruct (adjust c2 o (b_size c1 t1)) as [[o1 ev2]|e].
       * destruct HB as (A' & B' & C' & _). apply Hfin; try assumption; try lia.
-      * destruct HB as [_ ->]. repeat split; try assumption; try lia. right; left; reflexivity.
-    + destruct HA as [_ ->]. repeat split; try assumption; try lia. left; reflexivity.
+      * destruct HB as [HB ->]. repeat split; try assumption; try lia. right; split; [reflexivity|lia].
+    + destruct HA as [HA ->]. repeat split; try assumption; try lia. left; split; [reflexivity|lia].
 Qed.
+
+(* a swap2 that is possible (each size within the other's limit) succeeds *)
+Corollary swap2x_total t o : BInv c1 t -> BInv c2 o -> b_size c2 o <= b_limit c1 -> b_size c1 t <= b_limit c2 ->
+  exists t' o' e1 e2, swap2x t o = inl (t', o', e1, e2).
+Proof. intros Ht Ho L1 L2. pose proof (swap2x_ok t o Ht Ho) as X. destruct (swap2x t o) as [[[[t' o'] e1] e2]|[[[[e t'] o'] e1] e2]].
+  - exists t', o', e1, e2. reflexivity.
+  - destruct X as (_ & _ & _ & _ & [[_ X]|[_ X]]); lia. Qed.
 End X.
+
+(* the guard of the model is the guard of the code: SwapGuardTV.v proves the definitions regenerated from swap_sizetype
+   (four language standards, seven size-type pairs) equal to [SwapGuardTV.swap_st], whose condition is [st_throws] *)
+From Amc Require SwapGuardTV.
+Lemma st_throws_is_guard c1 c2 l r : st_throws c1 c2 l r = SwapGuardTV.st_guard (cM c1) (cM c2) l r.
+Proof. reflexivity. Qed.
+Lemma exchange_is_swap_st c1 c2 t o : exchange_buffers c1 c2 t o =
+  match SwapGuardTV.swap_st (cM c1) (cM c2) (capa_ t) (capa_ o), SwapGuardTV.swap_st (cM c1) (cM c2) (size_ t) (size_ o) with
+  | Some (ct, co), Some (st, so) => inl ({| capa_ := ct; size_ := st |}, {| capa_ := co; size_ := so |})
+  | _, _ => inr OverflowError
+  end.
+Proof. unfold exchange_buffers, SwapGuardTV.swap_st. rewrite !st_throws_is_guard.
+  destruct (SwapGuardTV.st_guard (cM c1) (cM c2) (capa_ t) (capa_ o)); [reflexivity|].
+  destruct (SwapGuardTV.st_guard (cM c1) (cM c2) (size_ t) (size_ o)); reflexivity. Qed.
